@@ -4,6 +4,7 @@ pub mod ast;
 pub mod build;
 pub mod canon;
 pub mod checks;
+pub mod emit;
 pub mod framework;
 pub mod gen;
 pub mod refsem;
